@@ -118,11 +118,12 @@ func (j *JsonConverter) importDirective(directive Directive) error {
 		return err
 	}
 
-	j.doc.ImportDirectiveDefinition(
+	ref := j.doc.ImportDirectiveDefinition(
 		directive.Name,
 		directive.Description,
 		argRefs,
 		directive.Locations)
+	j.doc.DirectiveDefinitions[ref].Repeatable.IsRepeatable = directive.IsRepeatable
 
 	return nil
 }
